@@ -55,20 +55,32 @@ MatVec(M, x) == LET n == Len(x) IN
 Dim(sp)        == sp.m * sp.n
 Inner(sp, x, y) == QSumSeq([i \in 1..Len(x) |-> QMul(sp.W[i], QMul(x[i], y[i]))])
 NormSq(sp, x)  == Inner(sp, x, x)
-IsVF(sp)       == sp.kind = "power"           \* vector field: m components over n points
+IsVF(sp)       == sp.kind \in {"power", "wpower"}   \* vector field: m components over n points
+\* WEIGHTED power space ProductSpace(X, m, weighting=cw) (kind "wpower", extra field cw = <<cw_1..cw_m>>; array or
+\* constant weighting): cw[k] weighs component k in the inner product of the power space, W[(k-1)n+i] = cw[k] * (weight
+\* of point i in X), AND in the point-wise norms of the vector-field functionals - documented in PointwiseNorm:
+\* "||F(x)|| = [sum_j w_j |F_j(x)|^p]^(1/p), max_j w_j |F_j(x)| for p = inf; by default the weights are taken from
+\* domain.weighting"; GroupL1Norm / IndicatorGroupL1UnitBall / Huber are defined through that point-wise norm.
+CW(sp, k)      == IF sp.kind = "wpower" THEN sp.cw[k] ELSE QOne
+CWj(sp, j)     == CW(sp, ((j - 1) \div sp.n) + 1)                 \* component weight of flat index j
+PW(sp, i)      == IF sp.kind = "wpower" THEN QDiv(sp.W[i], sp.cw[1]) ELSE sp.W[i]   \* weight of point i in the base space X
+WAbs(sp, x, j) == QMul(CWj(sp, j), QAbs(x[j]))
 Part(sp, k)    == [kind |-> "part", m |-> 1, n |-> sp.n,
                    W |-> Strict([i \in 1..sp.n |-> sp.W[(k - 1) * sp.n + i]])]
 PartVec(sp, x, k) == Strict([i \in 1..sp.n |-> x[(k - 1) * sp.n + i]])
 \* squared Euclidean norm of the vector sitting at point i of a vector field
-GrpSq(sp, x, i) == QSumSeq([k \in 1..sp.m |-> QSq(x[(k - 1) * sp.n + i])])
+GrpSq(sp, x, i) == QSumSeq([k \in 1..sp.m |-> QMul(CW(sp, k), QSq(x[(k - 1) * sp.n + i]))])
 \* on a scalar space every entry is its own group
 NGrp(sp)       == IF IsVF(sp) THEN sp.n ELSE Dim(sp)
 GSq(sp, x, i)  == IF IsVF(sp) THEN GrpSq(sp, x, i) ELSE QSq(x[i])
 GIdx(sp, i)    == IF IsVF(sp) THEN {(k - 1) * sp.n + i : k \in 1..sp.m} ELSE {i}
 
 \* point-wise 1- and max-norm of the vector at point i (rational for every rational field)
-GAbs1(sp, x, i) == QSumSeq([k \in 1..sp.m |-> QAbs(x[(k - 1) * sp.n + i])])
-GMaxA(sp, x, i) == QMaxSeq([k \in 1..sp.m |-> QAbs(x[(k - 1) * sp.n + i])])
+GAbs1(sp, x, i) == QSumSeq([k \in 1..sp.m |-> QMul(CW(sp, k), QAbs(x[(k - 1) * sp.n + i]))])
+GMaxA(sp, x, i) == QMaxSeq([k \in 1..sp.m |-> QMul(CW(sp, k), QAbs(x[(k - 1) * sp.n + i]))])
+\* un-weighted point-wise 1-norm (dual side of the weighted max-norm: in the coordinates u_k = cw_k x_k the pairing
+\* <g, z>_sp is PW * sum_k g_k u_k, so g lives in the PLAIN l1 ball)
+GAbs1U(sp, x, i) == QSumSeq([k \in 1..sp.m |-> QAbs(x[(k - 1) * sp.n + i])])
 \* point-wise exponent of the group functionals, carried in the field s: 1 -> 1, Inf -> max, anything else -> 2
 PExp(f)        == IF f.s = <<1, 1>> THEN 1 ELSE IF f.s = <<1, 0>> THEN 3 ELSE 2
 \* KL prior: absent (v = <<>>) means the one-element
@@ -78,6 +90,9 @@ SpRn(n)        == [kind |-> "rn",    m |-> 1, n |-> n, W |-> RConst(n, QOne)]
 SpRnW(n, c)    == [kind |-> "rnw",   m |-> 1, n |-> n, W |-> RConst(n, c)]
 SpDiscr(n, V)  == [kind |-> "discr", m |-> 1, n |-> n, W |-> RConst(n, V)]
 SpPower(m, n, V) == [kind |-> "power", m |-> m, n |-> n, W |-> RConst(m * n, V)]
+\* (uniform_discr, n cells of volume V)^m with component weights cw
+SpWPower(m, n, V, cw) == [kind |-> "wpower", m |-> m, n |-> n, cw |-> cw,
+                          W |-> Strict([j \in 1..m * n |-> QMul(cw[((j - 1) \div n) + 1], V)])]
 SpProd(n, c1, c2) == [kind |-> "pspace", m |-> 2, n |-> n,
                       W |-> Strict([j \in 1..2 * n |-> IF j <= n THEN c1 ELSE c2])]
 
@@ -158,11 +173,11 @@ Val(sp, f, x) ==
          LET t == [i \in 1..NGrp(sp) |-> IF PExp(f) = 1 THEN GAbs1(sp, x, i)
                                          ELSE IF PExp(f) = 3 THEN GMaxA(sp, x, i) ELSE XSqrt(GSq(sp, x, i))]
          IN IF \E i \in 1..NGrp(sp) : ~XKnown(t[i]) THEN NaN
-            ELSE QSumSeq([i \in 1..NGrp(sp) |-> QMul(sp.W[i], t[i])])
+            ELSE QSumSeq([i \in 1..NGrp(sp) |-> QMul(PW(sp, i), t[i])])
     [] f.op = "Huber" ->
          LET t == [i \in 1..NGrp(sp) |-> HuberOfSq(f.s, GSq(sp, x, i))]
          IN IF \E i \in 1..NGrp(sp) : ~XKnown(t[i]) THEN NaN
-            ELSE QSumSeq([i \in 1..NGrp(sp) |-> QMul(sp.W[i], t[i])])
+            ELSE QSumSeq([i \in 1..NGrp(sp) |-> QMul(PW(sp, i), t[i])])
     [] f.op = "IndBox"     -> Ind(\A i \in 1..Len(x) : QLe(f.s, x[i]) /\ QLe(x[i], f.c))
     [] f.op = "IndNonneg"  -> Ind(\A i \in 1..Len(x) : x[i][1] >= 0)
     [] f.op = "IndZero"    -> IF RIsZero(x) THEN f.c ELSE Inf
@@ -253,9 +268,9 @@ InSubdiff(sp, f, x, g) ==
              \A j \in GIdx(sp, i) : IF x[j] = QZero THEN QLe(QAbs(g[j]), QOne) ELSE g[j] = QSign(x[j])
            ELSE IF PExp(f) = 3 THEN
              LET M == GMaxA(sp, x, i) IN
-             IF M = QZero THEN QLe(GAbs1(sp, g, i), QOne)
-             ELSE /\ \A j \in GIdx(sp, i) : IF QAbs(x[j]) = M THEN SgnI(g[j]) * SgnI(x[j]) >= 0 ELSE g[j] = QZero
-                  /\ GAbs1(sp, g, i) = QOne
+             IF M = QZero THEN QLe(GAbs1U(sp, g, i), QOne)
+             ELSE /\ \A j \in GIdx(sp, i) : IF WAbs(sp, x, j) = M THEN SgnI(g[j]) * SgnI(x[j]) >= 0 ELSE g[j] = QZero
+                  /\ GAbs1U(sp, g, i) = QOne
            ELSE LET q == GSq(sp, x, i) IN
                 IF q = QZero THEN QLe(GSq(sp, g, i), QOne) ELSE UnitDir(x, g, GIdx(sp, i), q)
     [] f.op = "Huber" ->
@@ -307,8 +322,9 @@ InSubdiff(sp, f, x, g) ==
                                                ELSE g[j] = QMul(lam, QSign(x[j]))
            ELSE IF PExp(f) = 3 THEN  \* point-wise max-norm ball = box [-1, 1] in every entry
              \A j \in GIdx(sp, i) :
-               /\ QLe(QAbs(x[j]), QOne)
-               /\ (IF x[j] = QI(-1) THEN g[j][1] <= 0 ELSE IF x[j] = QOne THEN g[j][1] >= 0 ELSE g[j] = QZero)
+               LET u == QMul(CWj(sp, j), x[j]) IN
+               /\ QLe(QAbs(u), QOne)
+               /\ (IF u = QI(-1) THEN g[j][1] <= 0 ELSE IF u = QOne THEN g[j][1] >= 0 ELSE g[j] = QZero)
            ELSE LET q == GSq(sp, x, i) IN
                 IF QLt(QOne, q) THEN FALSE
                 ELSE IF QLt(q, QOne) THEN \A j \in GIdx(sp, i) : g[j] = QZero
@@ -465,7 +481,7 @@ Piece(sp, f, x) ==
          ELSE IF PExp(f) = 3 THEN
            [i \in 1..NGrp(sp) |->
               LET M == GMaxA(sp, x, i)
-                  A == {j \in GIdx(sp, i) : QAbs(x[j]) = M}
+                  A == {j \in GIdx(sp, i) : WAbs(sp, x, j) = M}
               IN IF M = QZero \/ Cardinality(A) # 1 THEN Edge
                  ELSE LET j == CHOOSE j \in A : TRUE IN 2 * j * SgnI(x[j])]
          ELSE [i \in 1..NGrp(sp) |-> IF GSq(sp, x, i) = QZero THEN Edge ELSE 1]
